@@ -14,22 +14,37 @@ CONTAINER_MUT = {'append', 'add', 'update', 'setdefault', 'pop', 'popitem', 'cle
 
 
 def _attr_mutations(P, u):
-    """[(attr, node, kind)] for self.<attr> stores / container mutations in unit u (kind: 'assign' | 'mutate' | 'reset')"""
+    """[(attr, node, kind)] for self.<attr> stores / container or object mutations in unit u, also through a local alias
+    `x = self.<attr>` (kind: 'assign' | 'mutate' | 'reset')"""
+    from ..effects import RELOADS
     out = []
+    alias = {}
+    for a in P.own(u, ast.Assign):
+        if self_attr(a.value) and len(a.targets) == 1 and isinstance(a.targets[0], ast.Name):
+            alias[a.targets[0].id] = self_attr(a.value)
+
+    def attr_of(e):
+        if self_attr(e):
+            return self_attr(e)
+        if isinstance(e, ast.Name) and e.id in alias:
+            return alias[e.id]
+        return None
     for n in P.own(u, (ast.Assign, ast.AugAssign, ast.Delete, ast.Call)):
         if isinstance(n, ast.Call):
             f = n.func
-            if isinstance(f, ast.Attribute) and self_attr(f.value) and f.attr in CONTAINER_MUT:
+            if isinstance(f, ast.Attribute) and attr_of(f.value):
                 rt = P.ev(u, f.value)
-                if any(a[0] in ('dict', 'list', 'set') for a in rt) or not rt:
-                    out.append((self_attr(f.value), n, 'reset' if f.attr == 'clear' else 'mutate'))
+                if f.attr in CONTAINER_MUT and (any(a[0] in ('dict', 'list', 'set') for a in rt) or not rt):
+                    out.append((attr_of(f.value), n, 'reset' if f.attr == 'clear' else 'mutate'))
+                elif f.attr in RELOADS and any(t.cls in NODEC for t in P.targets(n)):
+                    out.append((attr_of(f.value), n, 'mutate'))
             continue
         tgs = n.targets if isinstance(n, (ast.Assign, ast.Delete)) else [n.target]
         for t in tgs:
             if self_attr(t):
                 out.append((self_attr(t), n, 'assign'))
-            elif isinstance(t, ast.Subscript) and self_attr(t.value):
-                out.append((self_attr(t.value), n, 'mutate'))
+            elif isinstance(t, ast.Subscript) and attr_of(t.value):
+                out.append((attr_of(t.value), n, 'mutate'))
     return out
 
 
@@ -329,3 +344,86 @@ def read_resets(ctx, rr):
         # the reset must precede the conditional re-fill: no path may reach the tail loop with the old tail
     if len(P.classes[TRIE_NODE]) < 10:
         raise AnalysisError('R-READ-RESETS: node class not recognised')
+
+
+@rule('R-REFUSE-CLEAN')
+def refuse_clean(ctx, rr):
+    """a request that can still be refused has not changed any webentity / rule mark yet: validate first, then mutate"""
+    P, E = ctx.P, ctx.E
+    n = 0
+    for name, u in P.require_class('Traph').items():
+        raises = [r for r in P.own(u, ast.Raise) if r.exc is not None]
+        muts = [c for c in P.own(u, ast.Call) if any((t.cls, t.name) in E.mutators and t.cls == TRIE_NODE for t in P.targets(c))]
+        if not raises or not muts:
+            continue
+        g = ctx.cfg(u)
+        node_of = {}
+        for nd in g.nodes:
+            root = node_root(nd)
+            if root is None:
+                continue
+            for x in ast.walk(root):
+                node_of.setdefault(id(x), nd)
+            if nd.kind == 'stmt' and isinstance(nd.ast, ast.Raise):
+                node_of[id(nd.ast)] = nd
+        raise_nodes = {node_of[id(r)].id for r in raises if id(r) in node_of}
+        for c in muts:
+            n += 1
+            start = node_of.get(id(c))
+            if start is None:
+                continue
+            seen, work, hit = set(), [m for m, _ in start.succ], None
+            while work:
+                m = work.pop()
+                if m.id in seen:
+                    continue
+                seen.add(m.id)
+                if m.id in raise_nodes:
+                    hit = m
+                    break
+                work += [x for x, _ in m.succ]
+            rr.ob(ctx.where(u, c), '%s: no refusal (raise) is reachable after `%s`' % (u.qual, ast.unparse(c)[:50]), ok=hit is None)
+            if hit is not None:
+                rr.fail(ctx.finding('R-REFUSE-CLEAN', u, c, '%s changes a mark (`%s`) on a path that can still refuse the request (raise at line %d): a refused request '
+                                    'leaves the index modified' % (u.qual, ast.unparse(c)[:50], hit.lineno)))
+    rr.require(n, 6, 'mark changes in functions that can refuse')
+
+
+@rule('R-NO-EARLY-EXIT')
+def no_early_exit(ctx, rr):
+    """enumeration loops of the facade and of the link store visit every item: no `break` out of a loop over a store iterator"""
+    P = ctx.P
+    n = 0
+    for u in P.units:
+        if u.cls not in ('Traph', 'LinkStore'):
+            continue
+        for lp in P.own(u, (ast.For, ast.While)):
+            is_iter_loop = isinstance(lp, ast.For) and isinstance(lp.iter, ast.Call) and any(t.is_gen for t in P.targets(lp.iter))
+            is_walk_loop = isinstance(lp, ast.While) and u.cls == 'LinkStore' and 'has_previous' in ast.unparse(lp.test)
+            if not (is_iter_loop or is_walk_loop):
+                continue
+            n += 1
+            brk = None
+            for x in ast.walk(lp):
+                if isinstance(x, ast.Break):
+                    # the break must belong to this loop (not to a nested one)
+                    cur = P.parent.get(id(x))
+                    while cur is not None and not isinstance(cur, (ast.For, ast.While)):
+                        cur = P.parent.get(id(cur))
+                    if cur is lp:
+                        brk = x
+            rr.ob(ctx.where(u, lp), '%s: the loop over `%s` is never left early' % (u.qual, ast.unparse(lp.iter if isinstance(lp, ast.For) else lp.test)[:50]), ok=brk is None)
+            if brk is not None:
+                rr.fail(ctx.finding('R-NO-EARLY-EXIT', u, brk, '%s leaves the loop over `%s` with `break`: the remaining items (links, pages) are silently dropped from the answer'
+                                    % (u.qual, ast.unparse(lp.iter if isinstance(lp, ast.For) else lp.test)[:50])))
+        if u.cls == 'LinkStore' and u.is_gen and u.name != 'nodes_iter':
+            for w in P.own(u, ast.While):
+                ys = [y for y in ast.walk(w) if isinstance(y, ast.Yield)]
+                uses_counter = any(isinstance(c.func, ast.Name) and c.func.id == 'Counter' for c in P.own(u, ast.Call)) or \
+                    any(isinstance(a, ast.AugAssign) and isinstance(a.target, ast.Subscript) for a in P.own(u, ast.AugAssign))
+                if uses_counter:
+                    rr.ob(ctx.where(u, w), '%s emits its totals only after the whole list was walked' % u.qual, ok=not ys)
+                    if ys:
+                        rr.fail(ctx.finding('R-NO-EARLY-EXIT', u, ys[0], '%s yields partial totals from inside its walk: a target met again later is emitted twice with partial weights '
+                                            '(callers counting entries over-count)' % u.qual))
+    rr.require(n, 20, 'enumeration loops')
